@@ -20,6 +20,15 @@ def install(enable_logging=False):
   logging.disable(logging.NOTSET if enable_logging else logging.CRITICAL)
 
 
+def _without_monitors(x):
+  """monitored phases (exec_common 'mon') start a sampling thread that sleeps in real time: not under the scheduler"""
+  if isinstance(x, dict):
+    return {k: _without_monitors(v) for k, v in x.items() if k != 'mon'}
+  if isinstance(x, list):
+    return [_without_monitors(v) for v in x]
+  return x
+
+
 def run_case(case, choose=None, aux=None, max_steps=60000, enable_logging=False, conf=None, prepare=None,
              trace_lines=None, pre_runs=0):
   """Runs the case's test under a fresh scheduler.
@@ -30,6 +39,7 @@ def run_case(case, choose=None, aux=None, max_steps=60000, enable_logging=False,
   """
   install(enable_logging)
   from openhtf.util import configuration
+  case = _without_monitors(case)
   b = ec.build_test(case)
   test, ctx, recs, start = b['test'], b['ctx'], b['recs'], b['start']
   del ec.CRASHES[:]
